@@ -2,7 +2,7 @@
 from ..rules import capacity, model, optimize, engine, kinds
 
 EXPLANATION = (
-    "Static analysis of encoding coherence in Problem.init (abstractly interpreted, Python level): stable in-place sort before every derivation loop with a key reading only the constraint tuple; algorithms[p], cumulative var/param bounds, props_dom_indices / props_dom_offsets slices filled from dom_indices_arr / dom_offsets_arr at the same prop_vars and the same [start:end], props_parameters, triggers obtained from the constraint's own trigger function and joined with |=; derived attributes re-created from fresh allocations; plus the offset round trip view = shared + o / write-back = view - o / solution = shared + o / tightening = value -/+ 1 - o. Not invariance of solution sets under rewrites. Also: the wake-up table is filled cell by cell (a fancy-indexed |= over a repeated index keeps the last write); where one constraint sees one shared domain through several views, the views are intersected with an emptiness test and the constraint is re-run after its own write-back (queue drain, queue writers); Optional[int] API arguments (dom_index, dom_offset) are tested with `is None`; domain lists written as one object or as several behave alike (R-DOMAIN-LISTS: an in-place store into a [min, max] list requires every writer of the domain list to store lists created on the spot). Round 3: index kinds incl. counts (the attribute sizing the shared-domain axes is a number of shared domains), returned positions and a variable index validated against the other count; init() never reads a posting-order list by position after the sort and a guarded sort is invalidated by every mutator; write-back completeness. Round 4: an Optional argument is only given its default under a test of that very argument against None; an integer taken from a list-of-integers argument is never tested for truth (0 is a value); no solver code stores into the problem object."
+    "Static analysis of encoding coherence in Problem.init (abstractly interpreted, Python level): stable in-place sort before every derivation loop with a key reading only the constraint tuple; algorithms[p], cumulative var/param bounds, props_dom_indices / props_dom_offsets slices filled from dom_indices_arr / dom_offsets_arr at the same prop_vars and the same [start:end], props_parameters, triggers obtained from the constraint's own trigger function and joined with |=; derived attributes re-created from fresh allocations; plus the offset round trip view = shared + o / write-back = view - o / solution = shared + o / tightening = value -/+ 1 - o. Not invariance of solution sets under rewrites. Also: the wake-up table is filled cell by cell (a fancy-indexed |= over a repeated index keeps the last write); where one constraint sees one shared domain through several views, the views are intersected with an emptiness test and the constraint is re-run after its own write-back (queue drain, queue writers); Optional[int] API arguments (dom_index, dom_offset) are tested with `is None`; domain lists written as one object or as several behave alike (R-DOMAIN-LISTS: an in-place store into a [min, max] list requires every writer of the domain list to store lists created on the spot). Round 3: index kinds incl. counts (the attribute sizing the shared-domain axes is a number of shared domains), returned positions and a variable index validated against the other count; init() never reads a posting-order list by position after the sort and a guarded sort is invalidated by every mutator; write-back completeness. Round 4: an Optional argument is only given its default under a test of that very argument against None; an integer taken from a list-of-integers argument is never tested for truth (0 is a value); no solver code stores into the problem object. Round 6: R-POSTED-KEPT; R-VALUE-WIDTH (the per-constraint copy of the view offsets has the integer type of the domain stack and of the offset table); the own-call clause of the wake-up table."
 )
 
 
